@@ -89,6 +89,8 @@ OBS = {
                                        contract="a tail call to a fixed-arity closure REUSES the frame: frame count unchanged, stack' == stack[..sp] ++ the `arity` arguments in order, everything below sp untouched, ip' == 0, code and frame function are the callee's; wrong argument count => ArityMismatch with the frame count unchanged"),
     "tail_call_rest_args_contract": dict(props=["C09", "C01"], kind="bounded", bound=BS, functions=["VmCore::new_handle_tail_call_closure", "VmCore::adjust_stack_for_multi_arity"],
                                          contract="rest-argument callee: the surplus arguments are collected, in order, into one list; frame count unchanged; too few arguments => ArityMismatch"),
+    "tail_call_rest_args_two_contract": dict(props=["C09", "C01"], kind="bounded", bound=BS, functions=["VmCore::new_handle_tail_call_closure", "VmCore::adjust_stack_for_multi_arity"],
+                                             contract="same with two arguments passed: the rest list holds exactly the one surplus argument"),
     "tco_jump_contract": dict(props=["C09"], kind="bounded", bound=BS, functions=["VmCore::tco_jump_handler"],
                               contract="self tail call: frame count unchanged, stack' == stack[..frame.sp] ++ arguments, ip' == 0, sp' == frame.sp; arity mismatch => error"),
     "check_stack_overflow_contract": dict(props=["C09", "C07"], kind="proof", functions=["VmCore::check_stack_overflow"],
@@ -115,7 +117,7 @@ def run_for(scratch, tier, prop):
     specs = [dict(name=n, kind=o["kind"], contract=o["contract"], functions=o["functions"], bound=o.get("bound"))
              for n, o in OBS.items() if prop in o["props"]]
     specs.append(dict(name="canary_must_fail", kind="canary", contract="assert that must fail"))
-    obs, cmd, out = kani.run_harnesses(crate, specs, NAME, "vm", jobs=8, timeout=3000, harness_timeout="5m",
+    obs, cmd, out = kani.run_harnesses(crate, specs, NAME, "vm", jobs=8, timeout=3000, harness_timeout="10m",
                                        extra_flags=["--no-assertion-reach-checks", "--no-overflow-checks"])
     kani.attach_counterexamples(obs, crate, "vm", out)
     return obs, meta, cmd
